@@ -100,6 +100,14 @@ ALL = atom('__all__')
 
 def _invariants(ex, c):
     out = []
+    # a Python list has a non-negative length (holds of every list-valued global and field)
+    for gk, gty in W.globals.items():
+        if isinstance(gty, ListOf) and gk in c.old.glob:
+            out.append(gty.len(c.old.glob[gk]) >= 0)
+    for fk, fty in W.fields.items():
+        if isinstance(fty, ListOf) and fk in c.old.heap:
+            r = z3.Const('ln_' + fk, Ref(fk.split('.')[0]).sort())
+            out.append(QHyp([r], fty.len(c.old.heap[fk][r]) >= 0, 'len>=0'))
     if 'Node.kids' in c.old.heap:
         out += reach_axioms(c.old.heap['Node.kids'])
     for f in getattr(ex.k, 'assumes', []) or []:
